@@ -44,6 +44,8 @@ func (q *TellHub[A]) Receive(ctx context.Context, fn func(p2p.Message[A])) error
 		select {
 		case <-ctx.Done():
 			return ctx.Err()
+		case <-q.closed:
+			return q.err
 		case req, ok := <-q.delivers:
 			if !ok {
 				return q.err
